@@ -13,7 +13,7 @@ import (
 // Otherwise, it parses as a fragment using a cached body element.
 func ParseTemplateBytes(templateBytes []byte) ([]*html.Node, error) {
 	// Check if input template contains html/body
-	if bytes.Contains(templateBytes, []byte("</html>")) {
+	if isDocument(templateBytes) {
 		doc, err := html.Parse(bytes.NewReader(templateBytes))
 		if err != nil {
 			return nil, err
@@ -32,4 +32,16 @@ func ParseTemplateBytes(templateBytes []byte) ([]*html.Node, error) {
 		return nil, err
 	}
 	return nodes, nil
+}
+
+// isDocument reports whether the template is a full HTML document: it has an </html> end tag
+// (in any case), or - the end tag being optional - it starts with a doctype or an <html> tag.
+func isDocument(templateBytes []byte) bool {
+	if bytes.Contains(templateBytes, []byte("</html>")) {
+		return true
+	}
+	lower := bytes.TrimSpace(bytes.ToLower(templateBytes))
+	return bytes.Contains(lower, []byte("</html>")) ||
+		bytes.HasPrefix(lower, []byte("<!doctype")) ||
+		bytes.HasPrefix(lower, []byte("<html"))
 }
